@@ -47,6 +47,15 @@ static size_t hostile_size(Rng& r) {
     return H[r.below(sizeof H / sizeof H[0])];
 }
 
+// element-count products that overflow AND wrap to 0 or to a small, perfectly allocatable value (a check made after the multiplication,
+// or a zero-size special case placed before the overflow check, goes wrong exactly here)
+static bool wrapping_pair(Rng& r, size_t* a, size_t* b) {
+    static const size_t W[][2] = {{(size_t)1 << 32, (size_t)1 << 32}, {(size_t)1 << 63, 2}, {(size_t)1 << 62, 4}, {(size_t)1 << 33, (size_t)1 << 31}, {((size_t)1 << 63) + 4, 2}, {((size_t)1 << 32) + 1, (size_t)1 << 32},
+                                  {((size_t)1 << 62) + 1, 4}, {(size_t)-1 / 3 + 1, 3}, {((size_t)1 << 60) + 2, 16}, {(size_t)-1 / 2 + 1, 2}};
+    if (!r.chance(1, 16)) return false;
+    size_t i = r.below(sizeof W / sizeof W[0]); bool sw = r.coin(); *a = W[i][sw ? 1 : 0]; *b = W[i][sw ? 0 : 1]; return true;
+}
+
 static void run_case(Ctx& c, uint64_t idx) {
     Rng& r = c.rng;
     Backend be; UriMemoryManager mm; memset(&mm, 0, sizeof mm);
@@ -84,6 +93,7 @@ static void run_case(Ctx& c, uint64_t idx) {
             bool isCalloc = r.chance(1, 3);
             size_t a = hostile_size(r), b = isCalloc ? hostile_size(r) : 1;
             if (isCalloc && r.chance(1, 2)) { a = r.below(64); b = r.below(64); }
+            if (isCalloc && wrapping_pair(r, &a, &b)) c.count("wrapping_products");
             bool ovf = isCalloc && a && b > (size_t)-1 / a; size_t n = ovf ? 0 : a * b;
             char* p = (char*)(isCalloc ? mm.calloc(&mm, a, b) : mm.malloc(&mm, a));
             int en = errno; c.evaluations++;
@@ -107,6 +117,7 @@ static void run_case(Ctx& c, uint64_t idx) {
             size_t a = hostile_size(r), b = arr ? hostile_size(r) : 1;
             if (arr && r.chance(1, 2)) { a = r.below(40); b = r.below(40); }
             if (!arr && r.chance(1, 2)) a = r.below(600);
+            if (arr && wrapping_pair(r, &a, &b)) c.count("wrapping_products");
             bool ovf = arr && a && b > (size_t)-1 / a; size_t n = ovf ? 0 : a * b;
             uint64_t befFrees = be.frees;
             char* q = (char*)(arr ? mm.reallocarray(&mm, victim, a, b) : mm.realloc(&mm, victim, a));
